@@ -3,19 +3,44 @@ import math
 
 import numpy as np
 
+import os
+
+from harness import common, pyast_np
 from harness.common import cf, close, differential, hexf, unhex
 from harness.props.c09 import H, U, cm3, cv3, rand_rot
 
 ID = "C03"
-IMPORTS = "From Evo Require Import Num Linalg Umeyama.\n"
-COQ_TARGETS = ["theories/UmeyamaProofs.vo"]
-TRUSTED = ["model Evo.Umeyama written by hand from geometry.umeyama_alignment; tie = differential run in binary64",
+IMPORTS = "From Evo Require Import Num Linalg Umeyama NpDsl.\nFrom EvoGen Require Import UmeyamaGen.\n"
+COQ_TARGETS = ["theories/UmeyamaProofs.vo", "theories/UmeyamaTie.vo"]
+GEN_PATH = os.path.join(common.COQ, "generated", "UmeyamaGen.v")
+GEN_STATE = {"translated": True}
+TRUSTED = ["model Evo.Umeyama written by hand from geometry.umeyama_alignment; ties: (T) harness/pyast_np.py re-translates "
+           "umeyama_alignment from the current source into EvoGen.UmeyamaGen on every run (typed, fail-closed numpy vocabulary "
+           "Evo.NpDsl) and Evo.UmeyamaTie proves the translated function equal to the model over R; (H) differential run of "
+           "model AND translated function in binary64",
            "np.linalg.svd is an ORACLE: its recorded answer is fed to the model (tape) and measured against svd_at "
            "(orthogonal factors, ordered non-negative singular values, reconstruction) on every case; np.linalg.det is "
            "modelled by the cofactor formula (only its sign is used)",
            "real-vs-binary64 gap measured (tolerances relative to the coordinate scale), not proved"]
 ASSUMPTIONS = ["finite coordinates; equivariance of the returned triple is only required (and only tested) where the optimum is unique"]
 EPS = float(np.finfo(float).eps)
+
+
+def regenerate(ctx):
+    """translator tie: coq/generated/UmeyamaGen.v from the repository under test (fail-closed)"""
+    try:
+        text = pyast_np.translate_umeyama(common.REPO)
+        GEN_STATE["translated"] = True
+        if pyast_np.write_if_changed(GEN_PATH, text):
+            ctx.notes.append("coq/generated/UmeyamaGen.v regenerated from %s (content changed)" % common.REPO)
+        return []
+    except (pyast_np.Unsupported, OSError, SyntaxError, KeyError, IndexError, AttributeError, TypeError) as e:
+        GEN_STATE["translated"] = False
+        pyast_np.write_if_changed(GEN_PATH, pyast_np.stub())
+        return [{"kind": "obligation", "failing_input": False, "theorem": "Evo.UmeyamaTie.umeyama_gen_is_model (translator tie)",
+                 "correspondence": "pyast_np: evo/core/geometry.py umeyama_alignment",
+                 "detail": "translation of the repository under test failed (fail-closed): %s: %s" % (type(e).__name__, e),
+                 "case": None, "model_output": None, "impl_output": None}]
 
 
 def cpts(a):   # 3 x n array -> Coq list of V3
@@ -110,7 +135,11 @@ def expr(case, out):
             items.append("resid %s %s %s %s %s" % (cf(cc), cm3(rr), cv3(tt), X, Y))
         res = "[" + "; ".join(items) + "]"
         res = "(%s, mlist (mm (mt %s) %s), det %s)" % (res, cm3(r), cm3(r), cm3(r))
-    return "(%s, %s, %s, %s)" % (model, cov, svdchk, res)
+    genv = "tt"
+    if GEN_STATE["translated"]:
+        genv = "match umeyama_alignment_gen %s %s %s %s %s with Some (r, t, c) => Some (mlist r, vlist t, c) | None => None end" % (
+            svd, cf(EPS), X, Y, ws)
+    return "(%s, %s, %s, %s, %s)" % (model, cov, svdchk, res, genv)
 
 
 def _sv(d):
@@ -126,6 +155,37 @@ def lclose(xs, ys, scale, rtol=1e-9, atol=1e-12):
 
 
 def judge(case, val, out):
+    model, cov_m, svdchk, res, genv = val
+    f = judge_main(case, (model, cov_m, svdchk, res), out)
+    if f is None and GEN_STATE["translated"] and "exception" not in out:
+        f = judge_gen(case, genv, model, out)
+    return f
+
+
+def judge_gen(case, genv, model, out):
+    """the function translated from the current source, run in binary64 on the implementation's SVD answer"""
+    x, y = U(case["x"], (3, -1)), U(case["y"], (3, -1))
+    corr = "EvoGen.UmeyamaGen.umeyama_alignment_gen (translated source) vs implementation"
+    if x.shape != y.shape:
+        return None if genv is None else _mv("translated source does not refuse unequal sizes", corr)
+    if (genv is None) != (model is None):
+        tp = out.get("tape")
+        d = [unhex(a) for a in tp["d"]] if tp else [0, 0, 0]
+        tol = max(EPS, d[0] * 3 * EPS)
+        if any(abs(v - tol) <= 1e-6 * tol for v in d):
+            return None
+        return _mv("translated source and model disagree about refusing", corr)
+    if genv is None or "r" not in out:
+        return None
+    big = max(1.0, float(np.abs(x).max()), float(np.abs(y).max()))
+    gr, gt, gc = genv[1] if genv[0] == "Some" else genv
+    r, t, c = [unhex(a) for a in out["r"]], [unhex(a) for a in out["t"]], unhex(out["c"])
+    if not lclose(r, gr, 1.0, atol=1e-10) or not close(c, gc, rtol=1e-9) or not lclose(t, gt, big, atol=1e-9):
+        return _mv("returned (r, t, c) differs from the translated source run on the same SVD answer", corr)
+    return None
+
+
+def judge_main(case, val, out):
     model, cov_m, svdchk, res = val
     x, y = U(case["x"], (3, -1)), U(case["y"], (3, -1))
     if "exception" in out:
@@ -305,6 +365,11 @@ def shrink(case):
 
 
 def run(ctx, replay=None, proofs_ok=True):
+    if not proofs_ok:   # the case files only need the executable model and the translated function
+        common.build_theories(targets=["theories/Umeyama.vo", "theories/NpDsl.vo", "generated/UmeyamaGen.vo"])
+    if replay is not None and not replay.get("case"):
+        return {"failures": [], "coverage": {"evaluations": 0, "distinct_nontrivial": 0, "rule": "replay of an obligation "
+                "(no input case): the theorems were re-checked by the driver", "samples": []}}
     cases = [replay["case"]] if replay is not None else gen(ctx)
     failures, stats = differential(ctx, cases, imports=IMPORTS, impl=impl, expr=expr, judge=judge, shrink=shrink,
                                    nontrivial=lambda c, v, o: "r" in o, per_file=30)
@@ -330,8 +395,10 @@ LEVEL_TEXT = ("Coq theorems over R, for every SVD oracle meeting its specificati
               "rotation, the scale is positive (exactly 1 without scale estimation), the residual is minimal among all rigid / "
               "similarity transformations (complete Umeyama/Kabsch optimality chain incl. the trace bound for both determinant "
               "signs), unequal sizes / coincident points / points on a coordinate axis are refused, noise-free data is mapped "
-              "exactly, paired permutations do not change the result; non-vacuity example. Tie: differential run with the "
-              "implementation's own SVD answers on a tape, and a residual competition on the implementation's output.")
+              "exactly, paired permutations do not change the result; non-vacuity example. Ties: (T) the function is re-translated "
+              "from the current source on every run and proved equal to the model over R (UmeyamaTie), so the theorems hold of "
+              "the translated source itself; (H) differential run of model and translated function with the implementation's own "
+              "SVD answers on a tape, and a residual competition on the implementation's output.")
 LEVEL_NOTE = ("Trusted: Coq kernel/VM, Reals axioms + classic, hand model (tested), LAPACK SVD as oracle measured against its spec, "
               "float rounding measured. Not proved: parameter uniqueness / equivariance of the returned triple.")
-TECHNIQUE = "Coq proof (nsatz/nra on 3x3 records, list induction, Abel summation trace bound) + oracle-tape correspondence by vm_compute"
+TECHNIQUE = "Coq proof (nsatz/nra on 3x3 records, list induction, Abel summation trace bound) + Python-AST translator (numpy vocabulary) with a proved model equality + oracle-tape correspondence by vm_compute"
